@@ -174,3 +174,45 @@ theorem bodyExact_chunked (br : Bufio) (cs : List WChunk) (hcs : ∀ c ∈ cs, c
         exact hp hk) ks _ _ hrel hpos hlen
 
 end Req.C02
+
+namespace Req.C02
+open Req.Proto
+
+/-! ### the head's lines under any segmentation -/
+
+/-- `n` times `ReadSlice('\n')` — the primitive under `bufio.ReadLine` / `textproto.Reader`
+with which the head reader consumes the status line, the field lines and the blank line. -/
+def Bufio.readLines : Nat → Bufio → List Bytes × Bufio
+  | 0, b => ([], b)
+  | n + 1, b =>
+    match b.readSlice (b.cap + 2) 10 with
+    | ((l, none), b') =>
+      let (ls, b'') := Bufio.readLines n b'
+      (l :: ls, b'')
+    | ((l, some _), b') => ([l], b')
+
+/-- The wire form of a list of lines (each given without its final LF). -/
+def linesWire (ls : List Bytes) : Bytes := (ls.map fun l => l ++ [10]).flatten
+
+/-- **Line reading is independent of the segmentation**: whatever pieces the network delivers,
+whatever is buffered already, `ReadSlice` hands out exactly the lines (each fitting the
+buffer) and the reader then stands exactly behind them. -/
+theorem Bufio.readLines_spec (ls : List Bytes) (b : Bufio) (R : Bytes) (hw : b.WF) (hf : b.Fits)
+    (hrem : b.rem = linesWire ls ++ R) (hno : ∀ l ∈ ls, (10 : UInt8) ∉ l)
+    (hfit : ∀ l ∈ ls, l.length + 1 ≤ b.cap) :
+    ∃ b', Bufio.readLines ls.length b = (ls.map (fun l => l ++ [10]), b') ∧ b'.rem = R ∧ b'.WF ∧ b'.Fits ∧
+      b'.cap = b.cap ∧ b'.net.fin = b.net.fin := by
+  induction ls generalizing b with
+  | nil => exact ⟨b, rfl, by simpa [linesWire] using hrem, hw, hf, rfl, rfl⟩
+  | cons l ls ih =>
+    have hrem' : b.rem = l ++ 10 :: (linesWire ls ++ R) := by
+      rw [hrem]; simp [linesWire, List.append_assoc]
+    have hl := hfit l (by simp)
+    obtain ⟨b1, hr, hrem1, hw1, hf1, hcap1, hfin1⟩ :=
+      Bufio.readSlice_line (b.cap + 2) b l _ hw hf hrem' (hno l (by simp)) hl (by omega) (by omega)
+    obtain ⟨b', hrs, h2, h3, h4, h5, h6⟩ := ih b1 hw1 hf1 hrem1 (fun x hx => hno x (by simp [hx]))
+      (fun x hx => by rw [hcap1]; exact hfit x (by simp [hx]))
+    refine ⟨b', ?_, h2, h3, h4, by rw [h5, hcap1], by rw [h6, hfin1]⟩
+    simp only [List.length_cons, Bufio.readLines, hr, hrs, List.map_cons]
+
+end Req.C02
